@@ -80,6 +80,8 @@ pub fn apply_ufn_san(inner: Inner, f: UFn, v: &Val) -> Val {
             Val::V(x) => Val::V(ulib::sort_dedup(x.clone())),
             _ => panic!(),
         },
+        (Inner::FBox, UFn::FBoxAbs) => Val::f32(ulib::fbox_abs(ulib::FBox(v.as_f32())).0),
+        (Inner::Str, UFn::OrAnon) => Val::S(ulib::or_anon(v.as_str().to_string())),
         (Inner::Point, UFn::PointAbsY) => match v {
             Val::P(x, y) => {
                 let p = ulib::point_abs_y(ulib::Point { x: *x, y: *y });
@@ -107,6 +109,7 @@ pub fn apply_ufn_pred(inner: Inner, f: UFn, v: &Val) -> bool {
             Val::V(x) => ulib::vec_short(x),
             _ => panic!(),
         },
+        (Inner::FBox, UFn::FBoxSmall) => ulib::fbox_small(&ulib::FBox(v.as_f32())),
         (Inner::Point, UFn::PointOnDiag) | (Inner::Point, UFn::CPointOnDiag) => match v {
             Val::P(x, y) => ulib::point_on_diag(&ulib::Point { x: *x, y: *y }),
             _ => panic!(),
